@@ -82,14 +82,19 @@ class Script:
         return float(drawn)
 
 
+class RunAway(Exception):
+    """raised by the recorder to stop a search that runs far beyond its budget"""
+
+
 class Recorder:
     """context manager that swaps the names the loop resolves at call time for recording wrappers"""
 
     BNAMES = ("Chi2Calculator", "accept_metropolis", "move_mol_atom", "rotation_matrix")
     RNAMES = ("choice", "normal", "uniform", "rand")
 
-    def __init__(self, script=None):
+    def __init__(self, script=None, max_steps=None):
         self.script = script
+        self.max_steps = max_steps
         self.steps = []
         self.cur = None
         self.in_atom = 0
@@ -182,6 +187,8 @@ class Recorder:
             v = o_choice(a, *args, **kw)
             if rec.in_atom:
                 return v
+            if rec.max_steps is not None and len(rec.steps) >= rec.max_steps:
+                raise RunAway()
             if rec.cur is not None:
                 rec.protocol.append("step %d: a new type was drawn before the previous proposal was judged" % len(rec.steps))
             rec.cur = {"kind": int(v), "choice_arg": [int(x) for x in np.atleast_1d(a)], "gens": [], "draws": {}}
@@ -254,10 +261,11 @@ def run_case(case):
     mol1_before, mol2_before = mol1.copy(), mol2.copy()
     state = np.random.get_state()
     np.random.seed(case["seed"])
-    rec = Recorder(script)
+    rec = Recorder(script, max_steps=30 * max(case["n_steps"], 0) + 3000)
     out = io.StringIO()
     err = None
     result = None
+    aborted = False
     try:
         with rec, contextlib.redirect_stdout(out), np.errstate(all="ignore"):
             import warnings
@@ -265,12 +273,14 @@ def run_case(case):
                 warnings.simplefilter("ignore")
                 result = B.minimize_molecules(mol1, mol2, mol2.mean(axis=0), case["sigma_scale"], case["n_steps"],
                                               restr, info, case["width"], sim)
+    except RunAway:
+        aborted = True
     except Exception as ex:  # the property's runs never raise on valid input
         err = "%s: %s" % (type(ex).__name__, ex)
     finally:
         np.random.set_state(state)
     return {"rec": rec, "steps": rec.steps, "init": rec.init, "init_obj": rec.init_obj, "e_init": rec.e_init,
-            "result": result, "error": err, "protocol": rec.protocol, "info": info,
+            "result": result, "error": err, "aborted": aborted, "protocol": rec.protocol, "info": info,
             "inputs_unchanged": bool((mol1 == mol1_before).all() and (mol2 == mol2_before).all()),
             "mol2_arg": mol2, "stdout": out.getvalue()}
 
@@ -539,6 +549,8 @@ def oracle_trace(case, tr):
         else:
             count += 1
     else:
+        if tr["aborted"]:
+            return bad      # cut by the harness (30*budget+3000 steps) while still within its budget: nothing to add
         if count != n_steps and not bad:
             bad.append("stopped after %d steps with %d consecutive steps without a new lowest measure, budget %d"
                        % (len(tr["steps"]), count, n_steps))
@@ -648,6 +660,17 @@ def nontrivial(tr):
 
 
 # ---------------------------------------------------------------------------------------------- entry points
+MAX_REPORTS = 12
+
+
+def report(ctx, what, replay, key):
+    """ctx.violation, but at most MAX_REPORTS replay files per run (the first ones are the most useful)"""
+    if len(ctx.violations) < MAX_REPORTS:
+        ctx.violation(what, replay, key=key)
+    else:
+        ctx.cov["S"]["further_failures_not_written"] = ctx.cov["S"].get("further_failures_not_written", 0) + 1
+
+
 CORPUS_ACCEPT = [
     (0.0, 0.0, 0.5),      # D10: 0/0 -> NaN (np.float64) / ZeroDivisionError (float) before the repair
     (1.0, 1.0, 0.999),    # equal measure
@@ -675,12 +698,12 @@ def corpus(ctx):
         bad = oracle_accept(e0, e1, u)
         S["corpus"] += 1
         if bad:
-            ctx.violation("acceptance rule: " + "; ".join(bad[:3]), {"kind": "accept", "e0": e0, "e1": e1, "u": u}, key="accept")
+            report(ctx, "acceptance rule: " + "; ".join(bad[:3]), {"kind": "accept", "e0": e0, "e1": e1, "u": u}, "accept")
     for case in corpus_cases():
         bad = oracle_trace(case, run_case(case))
         S["corpus"] += 1
         if bad:
-            ctx.violation("Monte-Carlo search: " + "; ".join(bad[:3]), case, key="run")
+            report(ctx, "Monte-Carlo search: " + "; ".join(bad[:3]), case, "run")
 
 
 def budgets_extra(ctx):
@@ -708,7 +731,7 @@ def correspondence(ctx):
         bad = oracle_trace(case, tr)
         S["runs"] += 1
         if bad:
-            ctx.violation("Monte-Carlo search: " + "; ".join(bad[:3]), case, key="run")
+            report(ctx, "Monte-Carlo search: " + "; ".join(bad[:3]), case, "run")
         ctx.count(("run", case["seed"], case["n_steps"], tuple(case["sim_type"])), nontrivial(tr))
         hist["mode"][case["mode"]] = hist["mode"].get(case["mode"], 0) + 1
         sk = ",".join(map(str, case["sim_type"]))
@@ -732,6 +755,9 @@ def correspondence(ctx):
                 hist["counter_observed"] += 1
         hist["resets"] += sum(1 for s in tr["steps"][1:] if s.get("counter") == 0)
         if tr["error"]:
+            continue
+        if tr["aborted"]:
+            hist["truncated_runs"] = hist.get("truncated_runs", 0) + 1
             continue
         term = run_term(case, tr)
         if term is None:
@@ -763,7 +789,7 @@ def correspondence(ctx):
         ctx.count(("acc", e0, e1, u))
         bad = oracle_accept(e0, e1, u)
         if bad:
-            ctx.violation("acceptance rule: " + "; ".join(bad[:3]), meta[-1], key="accept")
+            report(ctx, "acceptance rule: " + "; ".join(bad[:3]), meta[-1], "accept")
     ctx.sample(meta[-1])
     size = sum(len(c) for c in cases)
     rc, out = lib.coq_make(["Corr/CheckC09.vo"])     # the checker's own cone (Gen/SrcConsts.v may have changed)
@@ -792,7 +818,7 @@ def correspondence(ctx):
             case = {k: v for k, v in d.items() if k not in ("code", "geometry_step")}
             bad = oracle_trace(case, run_case(case))
         if bad:
-            ctx.violation("%s: %s" % (d.get("kind"), "; ".join(bad[:3])), d, key=d.get("kind"))
+            report(ctx, "%s: %s" % (d.get("kind"), "; ".join(bad[:3])), d, d.get("kind"))
     return dis
 
 
@@ -808,14 +834,14 @@ def oracle(ctx, scale):
         ctx.count(("srun", case["seed"], case["n_steps"], tuple(case["sim_type"])), nontrivial(tr))
         if bad:
             fails += 1
-            ctx.violation("Monte-Carlo search: " + "; ".join(bad[:3]), case, key="run")
+            report(ctx, "Monte-Carlo search: " + "; ".join(bad[:3]), case, "run")
     m = ctx.n(500, 10000) * scale
     for _ in range(m):
         e0, e1, u = gen_accept(rs)
         bad = oracle_accept(e0, e1, u)
         if bad:
             fails += 1
-            ctx.violation("acceptance rule: " + "; ".join(bad[:3]), {"kind": "accept", "e0": e0, "e1": e1, "u": u}, key="accept")
+            report(ctx, "acceptance rule: " + "; ".join(bad[:3]), {"kind": "accept", "e0": e0, "e1": e1, "u": u}, "accept")
     S["oracle_runs_x%d" % scale] = n
     S["oracle_accept_x%d" % scale] = m
     S["failures"] = S.get("failures", 0) + fails
